@@ -811,12 +811,12 @@ def hist_part(run, r, runner, n):
             E = energy(c, ref, sig, xs, M)
             if not close(E, o["E"], 1e-9):
                 run.violation("potential:histogram:energy", "values %r: energy %r, 1/2 k M sum_g (h(xi_g) - h0_g)^2 = %r" % (xs, o["E"], E), {"kind": "hist", "case": c, "values": xs})
-            hh = 1.0 / 1024
+            hh = 1.0 / 16384       # central difference: truncation ~ hh^2 E/sigma^3 < 1e-6, rounding ~ 1e-16 E/hh
             for i in range(M):
                 xp = list(xs); xp[i] += hh
                 xm = list(xs); xm[i] -= hh
                 fd = -(energy(c, ref, sig, xp, M) - energy(c, ref, sig, xm, M)) / (2 * hh)
-                if abs(fd - o["F"][i]) > 1e-4 * max(1.0, abs(fd), abs(o["F"][i])):
+                if abs(fd - o["F"][i]) > 1e-5 * max(1.0, abs(fd), abs(o["F"][i])):
                     run.violation("potential:histogram:force", "values %r: force on value %d is %r, minus the derivative of the energy is %r" % (xs, i, o["F"][i], fd), {"kind": "hist", "case": c, "values": xs})
             # oracle 2: the DOCUMENTED potential 1/2 k INTEGRAL (h - h0)^2 dxi = 1/2 k width sum_g (...)^2 (mid-point rule on the grid)
             Edoc = energy(c, ref, sig, xs, c["width"])
